@@ -361,10 +361,186 @@ theorem applyScheduled_step (n : Node) (b : Hdr) : Step n (applyScheduled {} n b
         have := s1.trans (startNext_step { n with forced := forced, sched := p.kids } p.change.tag b.number)
         simpa using this
 
+/-! ### EpochState -/
+
+theorem mem_insertSorted {x y : Nat} : ∀ {l : List Nat}, y ∈ insertSorted x l → y = x ∨ y ∈ l
+  | [], h => by simpa [insertSorted] using h
+  | z :: zs, h => by
+    simp only [insertSorted] at h
+    split at h
+    · rcases List.mem_cons.mp h with h | h
+      · exact Or.inl h
+      · exact Or.inr h
+    · split at h
+      · exact Or.inr h
+      · rcases List.mem_cons.mp h with h | h
+        · exact Or.inr (h ▸ List.mem_cons_self ..)
+        · rcases mem_insertSorted h with h | h
+          · exact Or.inl h
+          · exact Or.inr (List.mem_cons_of_mem _ h)
+
+theorem mem_sortDedup {y : Nat} : ∀ {l : List Nat}, y ∈ sortDedup l → y ∈ l
+  | [], h => by simp [sortDedup] at h
+  | x :: xs, h => by
+    have h' : y ∈ insertSorted x (sortDedup xs) := h
+    rcases mem_insertSorted h' with h | h
+    · exact h ▸ List.mem_cons_self ..
+    · exact List.mem_cons_of_mem _ (mem_sortDedup h)
+
+theorem hrsW_sum_zero' (f : Nat → W) (hf : ∀ h, hrsW (f h) = 0) : ∀ (hs : List Nat), ((hs.map f).map hrsW).sum = 0
+  | [] => rfl
+  | h :: hs => by
+    have ih := hrsW_sum_zero' f hf hs
+    simp only [List.map_cons, List.sum_cons, hf h, ih]
+
+theorem einfo_apply {db : DB} (e : Entry) {x : Nat} (h : db.einfo x = true) : (db.apply e).einfo x = true := by
+  cases e with
+  | put w => exact einfo_write w h
+  | batch ws =>
+    show (ws.foldl DB.write db).einfo x = true
+    induction ws generalizing db with
+    | nil => exact h
+    | cons w ws ih => exact ih (einfo_write w h)
+
+theorem cinfo_apply {db : DB} (e : Entry) {x : Nat} (h : db.cinfo x = true) : (db.apply e).cinfo x = true := by
+  cases e with
+  | put w => exact cinfo_write w h
+  | batch ws =>
+    show (ws.foldl DB.write db).cinfo x = true
+    induction ws generalizing db with
+    | nil => exact h
+    | cons w ws ih => exact ih (cinfo_write w h)
+
+theorem handleNextEpoch_step (n : Node) (b : Hdr) : Step n (handleNextEpoch n b) 0 := by
+  unfold handleNextEpoch
+  simp only
+  let e := epochOf b.number + 1
+  let n1 : Node := { n with memNed := if n.memNed.contains (e, b.id) then n.memNed else n.memNed ++ [(e, b.id)] }
+  have s1 : Step n n1 0 := Step.same rfl rfl (fun _ h => h) rfl
+  have s2 : Step n1 (n1.put (.ned e b.id)) 0 := Step.put (w := .ned e b.id) (fun _ => trivial)
+  exact s1.trans s2
+
+theorem handleNextConfig_step (n : Node) (b : Hdr) : Step n (handleNextConfig n b) 0 := by
+  unfold handleNextConfig
+  simp only
+  let e := epochOf b.number + 1
+  let n1 : Node := { n with memNcd := if n.memNcd.contains (e, b.id) then n.memNcd else n.memNcd ++ [(e, b.id)] }
+  have s1 : Step n n1 0 := Step.same rfl rfl (fun _ h => h) rfl
+  have s2 : Step n1 (n1.put (.ncd e b.id)) 0 := Step.put (w := .ncd e b.id) (fun _ => trivial)
+  exact s1.trans s2
+
+theorem deleteLoopNed_step (mem : List (Nat × Nat)) (e' : Nat) : ∀ (epochs : List Nat) (n : Node),
+    (∀ e ∈ epochs, e ≤ e') → n.db.einfo e' = true → Step n (deleteLoop .delNed mem n epochs) 0
+  | [], n, _, _ => Step.refl n
+  | e :: es, n, hle, hk => by
+    simp only [deleteLoop]
+    let hs := sortDedup ((mem.filter (fun p => p.1 = e)).map (·.2))
+    have s1 : Step n (n.emit (.batch (hs.map (W.delNed e)))) 0 := by
+      have := Step.emit (n := n) (e := .batch (hs.map (W.delNed e)))
+        (fun _ => safeWs_delNed hs n.db e e' (hle e (List.mem_cons_self ..)) hk)
+      have hz : hrsE (.batch (hs.map (W.delNed e))) = 0 := hrsW_sum_zero' (W.delNed e) (fun _ => rfl) hs
+      rwa [hz] at this
+    have := s1.trans (deleteLoopNed_step mem e' es (n.emit (.batch (hs.map (W.delNed e))))
+      (fun x hx => hle x (List.mem_cons_of_mem _ hx)) (einfo_apply _ hk))
+    simpa using this
+
+theorem deleteLoopNcd_step (mem : List (Nat × Nat)) (e' : Nat) : ∀ (epochs : List Nat) (n : Node),
+    (∀ e ∈ epochs, e ≤ e') → n.db.cinfo e' = true → Step n (deleteLoop .delNcd mem n epochs) 0
+  | [], n, _, _ => Step.refl n
+  | e :: es, n, hle, hk => by
+    simp only [deleteLoop]
+    let hs := sortDedup ((mem.filter (fun p => p.1 = e)).map (·.2))
+    have s1 : Step n (n.emit (.batch (hs.map (W.delNcd e)))) 0 := by
+      have := Step.emit (n := n) (e := .batch (hs.map (W.delNcd e)))
+        (fun _ => safeWs_delNcd hs n.db e e' (hle e (List.mem_cons_self ..)) hk)
+      have hz : hrsE (.batch (hs.map (W.delNcd e))) = 0 := hrsW_sum_zero' (W.delNcd e) (fun _ => rfl) hs
+      rwa [hz] at this
+    have := s1.trans (deleteLoopNcd_step mem e' es (n.emit (.batch (hs.map (W.delNcd e))))
+      (fun x hx => hle x (List.mem_cons_of_mem _ hx)) (cinfo_apply _ hk))
+    simpa using this
+
+theorem epochs_le {mem : List (Nat × Nat)} {ne : Nat} :
+    ∀ e ∈ sortDedup ((mem.filter (fun p => p.1 ≤ ne)).map (·.1)), e ≤ ne := by
+  intro e he
+  obtain ⟨p, hp, rfl⟩ := List.mem_map.mp (mem_sortDedup he)
+  simpa using (List.mem_filter.mp hp).2
+
+theorem finalizeNed_step (n : Node) (b : Hdr) : Step n (finalizeNed n b).1 0 := by
+  unfold finalizeNed
+  split
+  · exact Step.refl _
+  · simp only
+    split
+    · exact Step.refl _
+    · split
+      · exact Step.refl _
+      · split
+        · exact Step.refl _
+        · let ne := epochOf b.number + 1
+          have s1 : Step n (n.put (.einfo ne)) 0 := Step.put (w := .einfo ne) (fun _ => trivial)
+          have hk : (n.put (.einfo ne)).db.einfo ne = true := by
+            simp [Node.put, Node.emit, DB.apply, DB.write]
+          have s2 := deleteLoopNed_step (n.put (.einfo ne)).memNed ne _ (n.put (.einfo ne))
+            (epochs_le (mem := (n.put (.einfo ne)).memNed) (ne := ne)) hk
+          have s3 : Step (deleteLoop .delNed (n.put (.einfo ne)).memNed (n.put (.einfo ne))
+              (sortDedup (((n.put (.einfo ne)).memNed.filter (fun p => p.1 ≤ ne)).map (·.1))))
+              { deleteLoop .delNed (n.put (.einfo ne)).memNed (n.put (.einfo ne))
+                  (sortDedup (((n.put (.einfo ne)).memNed.filter (fun p => p.1 ≤ ne)).map (·.1))) with
+                memNed := (deleteLoop .delNed (n.put (.einfo ne)).memNed (n.put (.einfo ne))
+                  (sortDedup (((n.put (.einfo ne)).memNed.filter (fun p => p.1 ≤ ne)).map (·.1)))).memNed.filter
+                    (fun p => ¬ p.1 ≤ ne) } 0 :=
+            Step.same rfl rfl (fun _ h => h) rfl
+          exact (s1.trans s2).trans s3
+
+theorem finalizeNcd_step (n : Node) (b : Hdr) : Step n (finalizeNcd n b).1 0 := by
+  unfold finalizeNcd
+  split
+  · exact Step.refl _
+  · simp only
+    split
+    · exact Step.refl _
+    · split
+      · exact Step.refl _
+      · split
+        · exact Step.refl _
+        · let ne := epochOf b.number + 1
+          have s1 : Step n (n.put (.cinfo ne)) 0 := Step.put (w := .cinfo ne) (fun _ => trivial)
+          have hk : (n.put (.cinfo ne)).db.cinfo ne = true := by
+            simp [Node.put, Node.emit, DB.apply, DB.write]
+          have s2 := deleteLoopNcd_step (n.put (.cinfo ne)).memNcd ne _ (n.put (.cinfo ne))
+            (epochs_le (mem := (n.put (.cinfo ne)).memNcd) (ne := ne)) hk
+          have s3 : Step (deleteLoop .delNcd (n.put (.cinfo ne)).memNcd (n.put (.cinfo ne))
+              (sortDedup (((n.put (.cinfo ne)).memNcd.filter (fun p => p.1 ≤ ne)).map (·.1))))
+              { deleteLoop .delNcd (n.put (.cinfo ne)).memNcd (n.put (.cinfo ne))
+                  (sortDedup (((n.put (.cinfo ne)).memNcd.filter (fun p => p.1 ≤ ne)).map (·.1))) with
+                memNcd := (deleteLoop .delNcd (n.put (.cinfo ne)).memNcd (n.put (.cinfo ne))
+                  (sortDedup (((n.put (.cinfo ne)).memNcd.filter (fun p => p.1 ≤ ne)).map (·.1)))).memNcd.filter
+                    (fun p => ¬ p.1 ≤ ne) } 0 :=
+            Step.same rfl rfl (fun _ h => h) rfl
+          exact (s1.trans s2).trans s3
+
+theorem finHandlers_step (n : Node) (b : Hdr) : Step n (finHandlers {} n b).1 0 := by
+  unfold finHandlers
+  simp only
+  let ne := epochOf b.number + 1
+  let n0 : Node := if b.number ≠ 0 ∧ (pendingMany n.memNed ne ∨ pendingMany n.memNcd ne)
+    then { n with nondet := true } else n
+  have s0 : Step n n0 0 := by
+    by_cases hc : b.number ≠ 0 ∧ (pendingMany n.memNed ne ∨ pendingMany n.memNcd ne)
+    · have : n0 = { n with nondet := true } := if_pos hc
+      rw [this]; exact Step.same rfl rfl (fun _ h => h) rfl
+    · have : n0 = n := if_neg hc
+      rw [this]; exact Step.refl _
+  have s1 := finalizeNed_step n0 b
+  have s2 := finalizeNcd_step (finalizeNed n0 b).1 b
+  have s3 := applyScheduled_step (finalizeNcd (finalizeNed n0 b).1 b).1 b
+  exact ((s0.trans s1).trans s2).trans s3
+
 /-! ### scenario operations -/
 
 theorem doImport_step (n : Node) (b : Hdr) (parentRoot : Nat) (dirty : Bool) (chg : Option ChangeSpec)
-    (hroot : dirty = false → b.root = parentRoot) : Step n (doImport {} n b parentRoot dirty chg).1 0 := by
+    (ne nc : Bool) (hroot : dirty = false → b.root = parentRoot) :
+    Step n (doImport {} n b parentRoot dirty chg ne nc).1 0 := by
   unfold doImport
   split
   · exact Step.refl _
@@ -413,16 +589,28 @@ theorem doImport_step (n : Node) (b : Hdr) (parentRoot : Nat) (dirty : Bool) (ch
       show Step n (match r3 with
         | (n, okDigest) =>
           if (!okDigest) = true then (n, "e-digest")
-          else match applyForced {} n b with
+          else
+            match applyForced {} (if nc = true then handleNextConfig (if ne = true then handleNextEpoch n b else n) b
+                else (if ne = true then handleNextEpoch n b else n)) b with
             | (n, false) => (n, "e-forced")
             | (n, true) => (n, "ok")).1 0
       obtain ⟨n3, ok3⟩ := r3
       simp only
       split
       · exact s123
-      · have s4 := applyForced_step n3 b
-        have s1234 : Step n (applyForced {} n3 b).1 0 := by simpa using s123.trans s4
-        split <;> (rename_i heq; rw [heq] at s1234; exact s1234)
+      · let n4 : Node := if ne = true then handleNextEpoch n3 b else n3
+        have s4 : Step n3 n4 0 := by
+          cases ne
+          · exact Step.refl _
+          · exact handleNextEpoch_step n3 b
+        let n5 : Node := if nc = true then handleNextConfig n4 b else n4
+        have s5 : Step n4 n5 0 := by
+          cases nc
+          · exact Step.refl _
+          · exact handleNextConfig_step n4 b
+        have s6 := applyForced_step n5 b
+        have sall : Step n (applyForced {} n5 b).1 0 := ((s123.trans s4).trans s5).trans s6
+        split <;> (rename_i heq; rw [heq] at sall; exact sall)
 
 theorem doFin_step (n : Node) (id r s : Nat) : Step n (doFin {} n id r s).1 1 := by
   unfold doFin
@@ -437,10 +625,26 @@ theorem doFin_step (n : Node) (id r s : Nat) : Step n (doFin {} n id r s).1 1 :=
     · split
       · exact s1
       · rename_i b _
-        have s2 := applyScheduled_step n1 b
-        have s12 : Step n (applyScheduled {} n1 b).1 1 := by simpa using s1.trans s2
-        split <;> (rename_i heq; rw [heq] at s12; exact s12)
+        exact s1.trans (finHandlers_step n1 b)
     · exact s1
+
+theorem doGfin_step (n : Node) (id r s : Nat) : Step n (doGfin {} n id r s).1 1 := by
+  unfold doGfin
+  simp only
+  let n3 := ((n.put (.jcp id)).put (.pv r s)).put (.pc r s)
+  have s3 : Step n n3 0 :=
+    ((Step.put (w := .jcp id) (fun _ => trivial)).trans (Step.put (w := .pv r s) (fun _ => trivial))).trans
+      (Step.put (w := .pc r s) (fun _ => trivial))
+  split
+  · exact s3.mono (by omega)
+  · have s4 := doFin_step n3 id r s
+    generalize doFin {} n3 id r s = res at s4
+    obtain ⟨n4, ok, str⟩ := res
+    cases ok with
+    | false => simpa using s3.trans s4
+    | true =>
+      have s5 : Step n4 (n4.put (.lfr r)) 0 := Step.put (w := .lfr r) (fun _ => trivial)
+      simpa using (s3.trans s4).trans s5
 
 theorem define_root {n : Node} {id parent k v : Nat} {b : Hdr} {pr : Nat} {dirty : Bool}
     (h : define n id parent k v = some (b, pr, dirty)) : dirty = false → b.root = pr := by
@@ -466,7 +670,7 @@ theorem define_root {n : Node} {id parent k v : Nat} {b : Hdr} {pr : Nat} {dirty
 theorem step_step (n : Node) (op : Op) : Step n (step {} n op) 1 := by
   unfold step
   cases op with
-  | imp id parent k v chg =>
+  | imp id parent k v chg ne nc =>
     simp only [step?]
     cases hdef : define n id parent k v with
     | none => exact (Step.refl n).mono (by omega)
@@ -478,11 +682,23 @@ theorem step_step (n : Node) (op : Op) : Step n (step {} n op) 1 := by
         by_cases hc : n.defs.any (fun x => x.id = id) = true
         · simp only [n1, hc, if_true]; exact Step.refl _
         · simp only [n1, hc]; exact Step.same rfl rfl (fun _ h => h) rfl
-      have := s0.trans (doImport_step n1 b pr dirty chg (define_root hdef))
+      have := s0.trans (doImport_step n1 b pr dirty chg ne nc (define_root hdef))
       exact this.mono (by omega)
   | fin id r s =>
     simp only [step?]
     exact doFin_step n id r s
+  | gfin id r s =>
+    simp only [step?]
+    exact doGfin_step n id r s
+  | just id =>
+    simp only [step?]
+    exact (Step.put (w := .jcp id) (fun _ => trivial)).mono (by simp [hrsW])
+  | pv r s =>
+    simp only [step?]
+    exact (Step.put (w := .pv r s) (fun _ => trivial)).mono (by simp [hrsW])
+  | pc r s =>
+    simp only [step?]
+    exact (Step.put (w := .pc r s) (fun _ => trivial)).mono (by simp [hrsW])
   | lr r =>
     simp only [step?]
     exact (Step.put (w := .lfr r) (fun _ => trivial)).mono (by simp [hrsW])
